@@ -63,6 +63,15 @@ Definition arr_get (l : list Z) (i : Z) : Z := nth (Z.to_nat i) l 0.
 Definition arr_set (l : list Z) (i v : Z) : list Z := splice l i [v].
 Definition arr_slice (l : list Z) (lo hi : Z) : list Z := sub l lo hi.
 
+(** lists of records ([]T with T a struct): the same two partial operations, for any element type *)
+Definition go_index_g {A : Type} (l : list A) (i : Z) : gres A :=
+  if (0 <=? i) && (i <? Z.of_nat (length l))
+  then match nth_error l (Z.to_nat i) with Some a => GOk a | None => GPanic end
+  else GPanic.
+Definition go_slice_g {A : Type} (l : list A) (lo hi : Z) : gres (list A) :=
+  if (0 <=? lo) && (lo <=? hi) && (hi <=? Z.of_nat (length l))
+  then GOk (firstn (Z.to_nat (hi - lo)) (skipn (Z.to_nat lo) l)) else GPanic.
+
 Definition go_zeros (n : Z) : list Z := repeat 0 (Z.to_nat n).
 
 (** [make([]T, n)] / [make([]T, n, c)] *)
